@@ -6,6 +6,7 @@ import (
 	"fmt"
 	"math/big"
 	"os"
+	"os/exec"
 	"sort"
 	"strings"
 	"sync"
@@ -429,12 +430,76 @@ func runC13Restart(s *kernel.Sim) {
 		}
 		s.Violate("crash_atomic", "state after crash is neither before nor after the interrupted operation ("+aspect+")", "%s:\n vs before: %s\n vs after: %s", label, db, da)
 	}
+	// a kill while the kernel copies the write of a commit into the file (or a machine that dies) leaves a torn
+	// record at the end of the value log: everything acknowledged is in front of it
+	vlog := func(root string) (string, int64) {
+		ents, _ := os.ReadDir(root)
+		name := ""
+		for _, e := range ents {
+			if strings.HasSuffix(e.Name(), ".vlog") && e.Name() > name {
+				name = e.Name()
+			}
+		}
+		if name == "" {
+			return "", 0
+		}
+		fi, err := os.Stat(root + "/" + name)
+		if err != nil {
+			return "", 0
+		}
+		return name, fi.Size()
+	}
+	checkTorn := func(label string, name string, from, to int64, before, after *models.RefStore) {
+		if name == "" || to-from < 2 {
+			return
+		}
+		imgN++
+		img := fmt.Sprintf("%s/torn%d", imgRoot, imgN)
+		if err := seams.CopyDir(dir, img); err != nil {
+			panic(err)
+		}
+		defer os.RemoveAll(img)
+		cut := from + 1 + int64(s.Choose("torncut", int(to-from-1)))
+		if err := os.Truncate(img+"/"+name, cut); err != nil {
+			panic(err)
+		}
+		s.Fault("torn_last_write_in_crash_image")
+		mb := tableMB
+		if imgN%2 == 0 {
+			mb = 0 // exactly the options pool.go opens the database with
+		}
+		// (first in a process of its own: a failed badger.Open leaves goroutines behind that a simulated run cannot end with)
+		out, perr := exec.Command(os.Args[0], "-test.run", "^TestWorker$", "-mode", "openprobe", "-trace", img, "-tier", fmt.Sprint(mb)).CombinedOutput()
+		if perr != nil || !strings.Contains(string(out), "OPEN-") {
+			panic(fmt.Sprintf("openprobe: %v: %s", perr, out))
+		}
+		if !strings.Contains(string(out), "OPEN-OK") {
+			msg := string(out)
+			if i := strings.Index(msg, "OPEN-ERR: "); i >= 0 {
+				msg = strings.SplitN(msg[i+10:], "\n", 2)[0]
+			}
+			s.Violate("crash_atomic", "database does not open after a crash that tore the last write", "%s: %d of the %d bytes of its write reached the file: the pool does not start again: %s", label, cut-from, to-from, msg)
+			return
+		}
+		st, err := seams.OpenStore(s, "badger", img, mb)
+		if err != nil {
+			s.Violate("crash_atomic", "database does not open after a crash that tore the last write", "%s: %d of the %d bytes of its write reached the file: %v", label, cut-from, to-from, err)
+			return
+		}
+		defer seams.CloseStore(s, st)
+		if db := storeVsModel(st, before); db != "" {
+			if da := storeVsModel(st, after); da != "" {
+				s.Violate("crash_atomic", "state after a torn write is neither before nor after the interrupted operation", "%s (%d of %d bytes written):\n vs before: %s\n vs after: %s", label, cut-from, to-from, db, da)
+			}
+		}
+	}
 	// one generated operation at a time, run in a task so that the driver can
 	// observe it parked at every in-transaction yield point
 	opIdx := 0
 	d.hook = nil
 	for opIdx < nops && !s.Violated() && d.bad != nil {
 		before := d.ref.Clone()
+		vname, vfrom := vlog(dir)
 		var desc string
 		done := false
 		i := opIdx
@@ -477,6 +542,9 @@ func runC13Restart(s *kernel.Sim) {
 		_ = done
 		// after the operation: image must show exactly the after-state
 		checkImage(fmt.Sprintf("after op %d (%s)", i, desc), d.ref, nil)
+		if vn, vto := vlog(dir); vn == vname && s.Choose("torn", 3) == 0 {
+			checkTorn(fmt.Sprintf("op %d (%s) torn", i, desc), vname, vfrom, vto, before, d.ref)
+		}
 		// close + reopen after every operation
 		ro.reopen(i%5 == 4)
 		if d.bad != nil {
@@ -495,6 +563,7 @@ func runC13Restart(s *kernel.Sim) {
 		}
 	}
 	// accepted nonces survive the restarts: replaying the latest one is refused
+	s.SetYield("txn", 0)
 	for _, id := range nodeIDs[:4] {
 		if l := d.accepted[id]; len(l) > 0 && !s.Violated() && d.bad != nil {
 			d.i = opIdx
@@ -1020,4 +1089,85 @@ func runC11Conc(s *kernel.Sim) {
 		s.Violate("serial_order", key+" ("+driver+" driver)", "tracked before: %v; ops:%s final tracked set %v", idsOf(func() []store.NodeID { l, _ := base.NodePeers(store.NodeID(N)); return l }()), b.String(), finalIDs)
 	}
 	s.ProbeN("c11.concurrent_ops", n)
+}
+
+// ------------------------------------------------------------------ C05 the end of the freshness window
+
+func init() {
+	Register(&Scenario{
+		Name: "c05_window_edge", Property: "C05", MaxSteps: 4000, Quick: 300, Thorough: 20000,
+		Doc:  "a request is honoured; just before its nonce leaves the 15-minute freshness window the captured request (or one with a lower nonce that is still fresh) is submitted again and the clock passes the end of the window while that submission is inside the store (between its freshness test and its lookup: yield point at the start of the badger transaction): it must be refused - as a duplicate while the saved nonce lives, as too old afterwards",
+		Real: []string{"pool/store/badger CheckAndSaveNonce (TTL, expiry at whole seconds)", "pool/store/memory CheckAndSaveNonce"}, Stub: []string{"none"},
+		Run: runC05WindowEdge,
+	})
+}
+
+func runC05WindowEdge(s *kernel.Sim) {
+	driver := []string{"badger", "badger", "memory"}[s.Choose("driver", 3)]
+	var inner store.Store
+	if driver == "badger" {
+		st, err := seams.OpenStore(s, "badger", seams.ScratchDir(s, "c05w"), 1)
+		if err != nil {
+			panic(err)
+		}
+		inner = st
+		seams.InstallTxnHook(s)
+	} else {
+		inner, _ = seams.OpenStore(s, "memory", "", 0)
+	}
+	defer seams.CloseStore(s, inner)
+	id := "na"
+	// the honoured request: its nonce is the client's clock, a little behind or ahead of the pool's
+	off := []time.Duration{0, -3 * time.Second, 2 * time.Second, 700 * time.Millisecond}[s.Choose("skew", 4)]
+	n := time.Now().Add(off).UnixNano()
+	if err := inner.CheckAndSaveNonce(id, n); err != nil {
+		s.Violate("contract", "a fresh nonce is refused", "CheckAndSaveNonce(%s, now%+v): %v", id, off, err)
+		return
+	}
+	// what is submitted again: the captured request itself, or the owner's older request that is still fresh
+	lower := int64([]int{0, 0, 1, 1000000000}[s.Choose("lower", 4)])
+	replay := n - lower
+	// until just before the replayed nonce turns stale
+	left := []time.Duration{1, time.Millisecond, 300 * time.Millisecond, 999 * time.Millisecond, 2 * time.Second}[s.Choose("left", 5)]
+	stale := time.Unix(0, replay).Add(store.ExpireNonce)
+	if d := time.Until(stale) - left; d > 0 {
+		time.Sleep(d)
+	}
+	s.SetYield("txn", 2)
+	var err error
+	done := false
+	s.Go("replay", func() {
+		err = inner.CheckAndSaveNonce(id, replay)
+		done = true
+	})
+	pass := []time.Duration{0, 500 * time.Millisecond, time.Second, 1500 * time.Millisecond, 3 * time.Second}[s.Choose("pass", 5)]
+	for i := 0; i < 20 && !done; i++ {
+		s.Settle()
+		if done {
+			break
+		}
+		if s.IsParked("replay") {
+			if i == 0 && pass > 0 {
+				// the submission is inside the store; time goes on (other nodes' commits, a busy disk)
+				time.Sleep(pass)
+				s.Fault("clock_passes_the_end_of_the_freshness_window_inside_the_nonce_check")
+			}
+			s.ReleaseFirst()
+		}
+	}
+	s.Settle()
+	s.SetYield("txn", 0)
+	if !done {
+		s.Violate("liveness", "nonce submission never returns", "replay still running")
+		return
+	}
+	if err != store.ErrInvalidNonce {
+		what := "the captured request"
+		if lower > 0 {
+			what = fmt.Sprintf("a request with a nonce %dns lower", lower)
+		}
+		s.Violate("at_most_once", "a replay at the end of the freshness window is accepted ("+driver+" driver)", "nonce honoured at skew %v; %s submitted %v before it turns stale, %v pass inside the store: CheckAndSaveNonce returned %v, want ErrInvalidNonce", off, what, left, pass, err)
+	}
+	s.MarkNontrivial()
+	s.SigMix(fmt.Sprintf("%s %v %d %v %v", driver, off, lower, left, pass))
 }
